@@ -26,13 +26,19 @@ type Net struct {
 	seq   atomic.Int64
 	start time.Time
 
-	mu       sync.Mutex
-	cond     *sync.Cond // signalled when a dial attempt starts or finishes
-	conns    []*Conn
-	dials    []*DialAttempt
-	plans    map[netip.Addr][]DialPlan // queue per remote; last one is sticky
-	defPlan  DialPlan
+	mu      sync.Mutex
+	cond    *sync.Cond // signalled when a dial attempt starts or finishes
+	conns   []*Conn
+	dials   []*DialAttempt
+	plans   map[netip.Addr][]DialPlan // queue per remote; last one is sticky
+	defPlan DialPlan
+
+	writeSpinUs atomic.Int64 // > 0: every Conn.Write is slow (see Conn.Write)
 }
+
+// SetWriteSpin makes every Write on every connection take us microseconds of
+// real time before the caller's buffer is copied (0 switches it off).
+func (n *Net) SetWriteSpin(us int64) { n.writeSpinUs.Store(us) }
 
 // New creates a network; call it inside the bubble so that Since() is
 // relative to the bubble's clock.
@@ -104,6 +110,7 @@ type Write struct {
 
 // Conn is the corebgp-side endpoint of a simulated TCP connection.
 type Conn struct {
+	wmu      sync.Mutex // serialises slow writes
 	ID       int
 	Inbound  bool // accepted by corebgp's listener (remote initiated)
 	net      *Net
@@ -180,6 +187,15 @@ func (c *Conn) Read(p []byte) (int, error) {
 
 // Write implements net.Conn: atomic, one log entry per call.
 func (c *Conn) Write(p []byte) (int, error) {
+	if us := c.net.writeSpinUs.Load(); us > 0 {
+		// a slow kernel write: concurrent Writes on one connection are
+		// serialised (as the fd write lock does) and the caller's buffer is
+		// only copied after a while - a caller that shares or reuses the
+		// buffer meanwhile corrupts what goes on the wire
+		c.wmu.Lock()
+		defer c.wmu.Unlock()
+		Spin(us)
+	}
 	c.mu.Lock()
 	defer c.mu.Unlock()
 	w := Write{Seq: c.net.NextSeq(), At: c.net.Since(), Data: append([]byte(nil), p...)}
@@ -675,7 +691,9 @@ func (n *Net) Release(remote netip.Addr) []*Conn {
 			case <-a.release:
 			default:
 				close(a.release)
-				out = append(out, a.Conn)
+				if a.Conn != nil { // nil: the attempt is registered, its socket not built yet
+					out = append(out, a.Conn)
+				}
 			}
 		}
 	}
